@@ -31,6 +31,10 @@ NAME = "events"
 PROPS = ("C10", "C11")
 
 
+class FilterBoom(Exception):
+    """Raised by a subscriber's own filter function."""
+
+
 class Ev0(Event):
     def __init__(self, n: int) -> None:
         self.n = n
@@ -185,7 +189,15 @@ class H:
         flt = None
         if f is not None:
 
+            ncalls = [0]
+
             def flt(ev: Any) -> bool:
+                ncalls[0] += 1
+                if f.get("boom_at") == ncalls[0]:
+                    # the subscriber's own filter fails: its stream dies, it stays subscribed
+                    sim.log("filter_seen", sub=name, n=ev.n, ok=False, boom=True)
+                    sim.fault("filter_raised")
+                    raise FilterBoom(f"filter of {name}")
                 ok = ev.n % f["mod"] == f["rem"]
                 sim.log("filter_seen", sub=name, n=ev.n, ok=ok)
                 return ok
@@ -198,10 +210,15 @@ class H:
             if t.get("wait"):
                 sim.log("sub_enter_soon", sub=name, chans=t["chans"], q=50, filter=f, wait=True)
                 sim.log("pull_begin", sub=name)
-                if len(sigs) == 1 and t.get("method", True):
-                    ev = await sigs[0].wait_event(flt)
-                else:
-                    ev = await wait_event(sigs, flt)
+                try:
+                    if len(sigs) == 1 and t.get("method", True):
+                        ev = await sigs[0].wait_event(flt)
+                    else:
+                        ev = await wait_event(sigs, flt)
+                except FilterBoom:
+                    sim.log("pull_boom", sub=name)
+                    sim.log("sub_exit", sub=name)
+                    return
                 sim.log("pull_end", sub=name, n=ev.n, src=self.inst_id.get(id(ev.source)), topic=ev.topic, time=ev.time)
                 sim.log("sub_exit", sub=name)
                 return
@@ -215,7 +232,12 @@ class H:
                     for p in t.get("pulls", ()):
                         await sim.pause(p[0], p[1])
                         sim.log("pull_begin", sub=name)
-                        ev = await stream.__anext__()
+                        try:
+                            ev = await stream.__anext__()
+                        except FilterBoom:
+                            # handled by the consumer, which stays in the block for a while
+                            sim.log("pull_boom", sub=name)
+                            break
                         sim.log("pull_end", sub=name, n=ev.n, src=self.inst_id.get(id(ev.source)), topic=ev.topic, time=ev.time)
                     await sim.pause(*leave.get("linger", (0, 0.0)))
                     if leave.get("raise"):
@@ -510,6 +532,10 @@ def oracle(sim: Sim, plan: dict) -> list[dict]:
                     m.in_hand.remove(d["n"])
             else:
                 m.in_hand.pop(0)
+            if d.get("boom"):
+                # consumed by the failing filter; the stream is dead: nothing is taken any more
+                m.pending_take_step = None
+                continue
             want_ok = d["n"] % m.flt["mod"] == m.flt["rem"] if m.flt else True
             if not d["ok"]:
                 sim.probe("filter_reject")
@@ -535,6 +561,12 @@ def oracle(sim: Sim, plan: dict) -> list[dict]:
                     key,
                     f"subscriber {m.name} pulled event {d['n']}; the queue model expects "
                     f"{m.in_hand[0] if m.in_hand else None} (buffer {m.buffer})",
+                )
+                v(
+                    "C11.channel",
+                    "delivery",
+                    f"subscriber {m.name} of channels {sorted(m.chans)} pulled event {d['n']}; what was dispatched on "
+                    f"its channels (and fitted its queue) says {m.in_hand[0] if m.in_hand else None} comes next",
                 )
                 if d["n"] in m.in_hand:
                     m.in_hand.remove(d["n"])
@@ -676,6 +708,8 @@ def gen(rng: random.Random, tier: str, prop: str) -> dict:
         if rng.random() < 0.4:
             mod = rng.choice((2, 3))
             t["filter"] = {"mod": mod, "rem": rng.randrange(mod)}
+            if rng.random() < 0.12:
+                t["filter"]["boom_at"] = rng.randint(1, 4)
         if rng.random() < 0.15:
             t["wait"] = True
             t["method"] = rng.random() < 0.5
